@@ -929,7 +929,10 @@ func (ds *AnySource) PrepareRun(Npresamples int, Nsamples int) error {
 
 	// Load last trigger state from config file
 	var fts []FullTriggerState
-	if err := viper.UnmarshalKey("trigger", &fts); err != nil {
+	viperMutex.Lock()
+	err := viper.UnmarshalKey("trigger", &fts)
+	viperMutex.Unlock()
+	if err != nil {
 		// could not read trigger state from config file.
 		fts = []FullTriggerState{}
 	}
